@@ -856,6 +856,11 @@ class FunctionPlugin(PrimitivePlugin):
             getter = getattr(tracer_map, "get", None)
             var = getter(id(tracer)) if callable(getter) else None
             if var is None:
+                # Newer JAX keeps the jaxpr variable on the tracer itself.
+                candidate = getattr(tracer, "val", None)
+                if isinstance(candidate, Var):
+                    var = candidate
+            if var is None:
                 return None
             const_map = getattr(frame, "constvar_to_val", None)
             const_getter = getattr(const_map, "get", None)
